@@ -258,3 +258,67 @@ def depth_limit(ex, m):
     except BTClibValueError:
         return {"refused_only_beyond_128_hashes": m > 128}
     return {"answered_up_to_128_hashes": sand(m <= 128, sor(r == True, r == False))}   # noqa: E712
+
+
+@ob("C12", "output_private_key_opens_the_output_public_key", quick=[dict()],
+    bound="internal private key d in 1..n-1 (256 bits) and merkle root (32 octets) symbolic; x(d*G) and its parity arbitrary functions of d: the private key _tweaked_prvkey answers multiplies the generator "
+          "to the x-only key (and parity) _tweaked_pubkey answers for x(d*G), and the two refuse together (tweak >= n)",
+    stubs=_STUBS + ["the group homomorphism enters as one assumed instance on exactly the terms BIP341 builds: with d' = d or n - d (so that d'*G has even y) and t the TapTweak hash, "
+                    "x((d' + t) mod n * G) = x(lift_x(x(d*G)) + t*G), and likewise for the parity (a true statement about secp256k1; a library that negated the wrong way or hashed another key is not helped by it)"],
+    functions=["btclib.script.taproot._tweaked_prvkey", "btclib.script.taproot._tweaked_pubkey", "btclib.script.taproot._tap_tweak"], timeout=600, min_ok=1)
+def prvkey_opens_pubkey(ex):
+    from sx import instr
+    if not ex.concrete:
+        instr.HASH_INJECTIVE = True
+    th = _tagged_ufs(ex)
+    F = ex.uf("tweak_add_x", 32, injective=True)
+    Fp = ex.uf("tweak_add_parity", 1, injective=False)
+    X = ex.uf("pub_x", 32, injective=True)
+    Par = ex.uf("pub_parity", 1, injective=False)
+
+    class PointOf:                      # m*G: coordinates are uninterpreted functions of m; the scalar stays readable for the addition stub
+        def __init__(self, m):
+            self.scalar = m
+            mb = m.to_bytes(32, "big")
+            self.xy = (int.from_bytes(X(mb), "big"), 2 + (Par(mb)[0] & 1))
+
+        def __getitem__(self, i):
+            return self.xy[i]
+
+    def mult(m, Q=None, ec=None, **kw):
+        assert Q is None
+        return PointOf(m)
+
+    def add_var(P, T):
+        assert isinstance(T, PointOf) and P[1] % 2 == 0
+        arg = P[0].to_bytes(32, "big") + T.scalar.to_bytes(32, "big")
+        return int.from_bytes(F(arg), "big"), Fp(arg)[0] & 1
+    ex.stub(curve_mod.mult, mult)
+    ex.stub(secp256k1.add_var, add_var, owner=secp256k1, attr="add_var")
+    d = ex.int("d", 1, N - 1)
+    h = ex.bytes("h", 32)
+    db = d.to_bytes(32, "big")
+    px = X(db)
+    odd = Par(db)[0] & 1
+    t = int.from_bytes(th(b"TapTweak", px + h), "big")
+    dd = ite(odd == 1, N - d, d)
+    k = (dd + t) % N
+    arg = px + t.to_bytes(32, "big")
+    if not ex.concrete:
+        ex.assume(implies(sand(t < N, k != 0), sand(X(k.to_bytes(32, "big")) == F(arg), (Par(k.to_bytes(32, "big"))[0] & 1) == (Fp(arg)[0] & 1))))
+    fake = type("K", (), dict(sec=b"\x02" + px, point=(int.from_bytes(px, "big"), 2), is_compressed=True))()
+    prv = pub = None
+    try:
+        prv = taproot._tweaked_prvkey(d, h)
+    except BTClibValueError:
+        pass
+    try:
+        pub = taproot._tweaked_pubkey(fake, h)
+    except BTClibValueError:
+        pass
+    if prv is None or pub is None:
+        return ex.refuse("BTClibValueError", both_refuse_and_only_a_tweak_out_of_range=sand(prv is None, pub is None, t >= N))
+    if bool(prv == 0):
+        return ex.refuse("zero_key")         # probability 2^-256; BIP341 does not treat it and neither does the library
+    pb = prv.to_bytes(32, "big")
+    return {"private_key_is_bip341s": prv == k, "x_of_private_key_times_G_is_the_output_key": X(pb) == pub[0], "parity_agrees": (Par(pb)[0] & 1) == pub[1], "tweak_in_range": t < N}
